@@ -20,11 +20,23 @@ type C09Case struct {
 	Universe []kit.KeySpec `json:"universe"`
 	Config   GConfig       `json:"config"`
 	Seed     int64         `json:"seed"`
+	// Before: the configuration is not the first one of the process - another one was loaded before it, then a
+	// reload failed while starting (bad cipher, unbindable address), then this one was loaded. What a key
+	// opens is decided by the configuration that is loaded, whatever came before.
+	Before      *GConfig `json:"before,omitempty"`
+	BeforeFault string   `json:"before_fault,omitempty"`
+	Arg         int      `json:"arg,omitempty"`
 }
 
 func genC09(t *rapid.T) C09Case {
 	c := C09Case{Universe: kit.GenKeyUniverse(t, 2, 8), Seed: rapid.Int64Range(1, 1<<40).Draw(t, "seed")}
 	c.Config = genConfig(t, c.Universe, "")
+	if rapid.IntRange(0, 3).Draw(t, "history") == 0 {
+		b := genConfig(t, c.Universe, "before.")
+		c.Before = &b
+		c.BeforeFault = rapid.SampledFrom([]string{"badcipher_svc", "badcipher_legacy", "unbindable", "none"}).Draw(t, "beforeFault")
+		c.Arg = rapid.IntRange(0, 7).Draw(t, "arg")
+	}
 	return c
 }
 
@@ -44,8 +56,39 @@ func runC09(c C09Case, info *kit.Info) *kit.Finding {
 		return nil
 	}
 	defer s.close()
+	cmd := "run"
+	endpoints := map[endpoint]bool{}
+	if c.Before != nil {
+		// history: an earlier configuration, then a reload that fails while starting
+		r, err := s.ex.Do(map[string]any{"cmd": "run", "config": s.writeConfig(c.Before.renderYAML(s.pt))}, 20*time.Second)
+		if err != nil {
+			return execFailure(s, err)
+		}
+		if !r.OK {
+			info.Skipped = "the earlier configuration did not load: " + r.Err
+			return nil
+		}
+		for ep := range c.Before.serving(s.pt) {
+			endpoints[ep] = true
+		}
+		path, mustFail, _, release := applyFault(s, C10Attempt{Config: c.Config, Fault: c.BeforeFault, Arg: c.Arg, Arg2: c.Arg / 2}, c.Before.serving(s.pt))
+		if mustFail {
+			r, err = s.ex.Do(map[string]any{"cmd": "reload", "config": path}, 20*time.Second)
+			release()
+			if err != nil {
+				return execFailure(s, err)
+			}
+			if r.OK {
+				return kit.Violation("reload:faulty-config-accepted", "a reload with fault %s succeeded", c.BeforeFault)
+			}
+			info.Class("loaded-after-a-failed-reload")
+		} else {
+			release()
+		}
+		cmd = "reload"
+	}
 	path := s.writeConfig(c.Config.renderYAML(s.pt))
-	r, err := s.ex.Do(map[string]any{"cmd": "run", "config": path}, 20*time.Second)
+	r, err := s.ex.Do(map[string]any{"cmd": cmd, "config": path}, 20*time.Second)
 	if err != nil {
 		return execFailure(s, err)
 	}
@@ -57,7 +100,14 @@ func runC09(c C09Case, info *kit.Info) *kit.Finding {
 		return kit.Violation("config:valid-config-rejected", "a valid configuration failed to load: %s\n%s", r.Err, c.Config.renderYAML(s.pt))
 	}
 	model := c.Config.serving(s.pt)
-	f, err := s.probeMatrix(model, sortedEndpoints(model), c.Universe, "after load", info)
+	for ep := range model {
+		endpoints[ep] = true
+	}
+	all := map[endpoint]*endpointModel{}
+	for ep := range endpoints {
+		all[ep] = nil
+	}
+	f, err := s.probeMatrix(model, sortedEndpoints(all), c.Universe, "after load", info)
 	if err != nil {
 		return execFailure(s, err)
 	}
